@@ -1,3 +1,24 @@
+gen/Compute.vo gen/Compute.glob gen/Compute.v.beautified gen/Compute.required_vo: gen/Compute.v lib/Lib.vo
+gen/Compute.vio: gen/Compute.v lib/Lib.vio
+gen/Compute.vos gen/Compute.vok gen/Compute.required_vos: gen/Compute.v lib/Lib.vos
+gen/ObjApi.vo gen/ObjApi.glob gen/ObjApi.v.beautified gen/ObjApi.required_vo: gen/ObjApi.v model/ObjModel.vo gen/ObjNames.vo
+gen/ObjApi.vio: gen/ObjApi.v model/ObjModel.vio gen/ObjNames.vio
+gen/ObjApi.vos gen/ObjApi.vok gen/ObjApi.required_vos: gen/ObjApi.v model/ObjModel.vos gen/ObjNames.vos
+gen/ObjApiBin.vo gen/ObjApiBin.glob gen/ObjApiBin.v.beautified gen/ObjApiBin.required_vo: gen/ObjApiBin.v model/ObjModel.vo gen/ObjNames.vo
+gen/ObjApiBin.vio: gen/ObjApiBin.v model/ObjModel.vio gen/ObjNames.vio
+gen/ObjApiBin.vos gen/ObjApiBin.vok gen/ObjApiBin.required_vos: gen/ObjApiBin.v model/ObjModel.vos gen/ObjNames.vos
+gen/ObjNames.vo gen/ObjNames.glob gen/ObjNames.v.beautified gen/ObjNames.required_vo: gen/ObjNames.v model/ObjModel.vo
+gen/ObjNames.vio: gen/ObjNames.v model/ObjModel.vio
+gen/ObjNames.vos gen/ObjNames.vok gen/ObjNames.required_vos: gen/ObjNames.v model/ObjModel.vos
+gen/Tables.vo gen/Tables.glob gen/Tables.v.beautified gen/Tables.required_vo: gen/Tables.v lib/Lib.vo gen/Compute.vo
+gen/Tables.vio: gen/Tables.v lib/Lib.vio gen/Compute.vio
+gen/Tables.vos gen/Tables.vok gen/Tables.required_vos: gen/Tables.v lib/Lib.vos gen/Compute.vos
+gen/Totality.vo gen/Totality.glob gen/Totality.v.beautified gen/Totality.required_vo: gen/Totality.v lib/Lib.vo lib/ULib.vo gen/Compute.vo gen/Tables.vo
+gen/Totality.vio: gen/Totality.v lib/Lib.vio lib/ULib.vio gen/Compute.vio gen/Tables.vio
+gen/Totality.vos gen/Totality.vok gen/Totality.required_vos: gen/Totality.v lib/Lib.vos lib/ULib.vos gen/Compute.vos gen/Tables.vos
+gen/Unfold.vo gen/Unfold.glob gen/Unfold.v.beautified gen/Unfold.required_vo: gen/Unfold.v lib/Lib.vo gen/Compute.vo gen/Tables.vo
+gen/Unfold.vio: gen/Unfold.v lib/Lib.vio gen/Compute.vio gen/Tables.vio
+gen/Unfold.vos gen/Unfold.vok gen/Unfold.required_vos: gen/Unfold.v lib/Lib.vos gen/Compute.vos gen/Tables.vos
 lib/BoolLaws.vo lib/BoolLaws.glob lib/BoolLaws.v.beautified lib/BoolLaws.required_vo: lib/BoolLaws.v lib/Lib.vo lib/RLib.vo
 lib/BoolLaws.vio: lib/BoolLaws.v lib/Lib.vio lib/RLib.vio
 lib/BoolLaws.vos lib/BoolLaws.vok lib/BoolLaws.required_vos: lib/BoolLaws.v lib/Lib.vos lib/RLib.vos
@@ -16,24 +37,9 @@ lib/Spec.vos lib/Spec.vok lib/Spec.required_vos: lib/Spec.v lib/Lib.vos lib/RLib
 lib/Trig.vo lib/Trig.glob lib/Trig.v.beautified lib/Trig.required_vo: lib/Trig.v lib/Lib.vo lib/RLib.vo
 lib/Trig.vio: lib/Trig.v lib/Lib.vio lib/RLib.vio
 lib/Trig.vos lib/Trig.vok lib/Trig.required_vos: lib/Trig.v lib/Lib.vos lib/RLib.vos
-gen/Compute.vo gen/Compute.glob gen/Compute.v.beautified gen/Compute.required_vo: gen/Compute.v lib/Lib.vo
-gen/Compute.vio: gen/Compute.v lib/Lib.vio
-gen/Compute.vos gen/Compute.vok gen/Compute.required_vos: gen/Compute.v lib/Lib.vos
-gen/ObjApi.vo gen/ObjApi.glob gen/ObjApi.v.beautified gen/ObjApi.required_vo: gen/ObjApi.v model/ObjModel.vo gen/ObjNames.vo
-gen/ObjApi.vio: gen/ObjApi.v model/ObjModel.vio gen/ObjNames.vio
-gen/ObjApi.vos gen/ObjApi.vok gen/ObjApi.required_vos: gen/ObjApi.v model/ObjModel.vos gen/ObjNames.vos
-gen/ObjApiBin.vo gen/ObjApiBin.glob gen/ObjApiBin.v.beautified gen/ObjApiBin.required_vo: gen/ObjApiBin.v model/ObjModel.vo gen/ObjNames.vo
-gen/ObjApiBin.vio: gen/ObjApiBin.v model/ObjModel.vio gen/ObjNames.vio
-gen/ObjApiBin.vos gen/ObjApiBin.vok gen/ObjApiBin.required_vos: gen/ObjApiBin.v model/ObjModel.vos gen/ObjNames.vos
-gen/ObjNames.vo gen/ObjNames.glob gen/ObjNames.v.beautified gen/ObjNames.required_vo: gen/ObjNames.v model/ObjModel.vo
-gen/ObjNames.vio: gen/ObjNames.v model/ObjModel.vio
-gen/ObjNames.vos gen/ObjNames.vok gen/ObjNames.required_vos: gen/ObjNames.v model/ObjModel.vos
-gen/Tables.vo gen/Tables.glob gen/Tables.v.beautified gen/Tables.required_vo: gen/Tables.v lib/Lib.vo gen/Compute.vo
-gen/Tables.vio: gen/Tables.v lib/Lib.vio gen/Compute.vio
-gen/Tables.vos gen/Tables.vok gen/Tables.required_vos: gen/Tables.v lib/Lib.vos gen/Compute.vos
-gen/Unfold.vo gen/Unfold.glob gen/Unfold.v.beautified gen/Unfold.required_vo: gen/Unfold.v lib/Lib.vo gen/Compute.vo gen/Tables.vo
-gen/Unfold.vio: gen/Unfold.v lib/Lib.vio gen/Compute.vio gen/Tables.vio
-gen/Unfold.vos gen/Unfold.vok gen/Unfold.required_vos: gen/Unfold.v lib/Lib.vos gen/Compute.vos gen/Tables.vos
+lib/ULib.vo lib/ULib.glob lib/ULib.v.beautified lib/ULib.required_vo: lib/ULib.v lib/Lib.vo
+lib/ULib.vio: lib/ULib.v lib/Lib.vio
+lib/ULib.vos lib/ULib.vok lib/ULib.required_vos: lib/ULib.v lib/Lib.vos
 model/ObjChecks.vo model/ObjChecks.glob model/ObjChecks.v.beautified model/ObjChecks.required_vo: model/ObjChecks.v model/ObjModel.vo gen/ObjNames.vo gen/ObjApi.vo
 model/ObjChecks.vio: model/ObjChecks.v model/ObjModel.vio gen/ObjNames.vio gen/ObjApi.vio
 model/ObjChecks.vos model/ObjChecks.vok model/ObjChecks.required_vos: model/ObjChecks.v model/ObjModel.vos gen/ObjNames.vos gen/ObjApi.vos
@@ -100,6 +106,9 @@ props/C01.vos props/C01.vok props/C01.required_vos: props/C01.v lib/Lib.vos lib/
 props/C04.vo props/C04.glob props/C04.v.beautified props/C04.required_vo: props/C04.v lib/Lib.vo lib/RLib.vo lib/Spec.vo gen/Compute.vo gen/Tables.vo model/ObjModel.vo gen/ObjNames.vo gen/ObjApi.vo model/ObjChecks.vo proofs/C04_conv.vo
 props/C04.vio: props/C04.v lib/Lib.vio lib/RLib.vio lib/Spec.vio gen/Compute.vio gen/Tables.vio model/ObjModel.vio gen/ObjNames.vio gen/ObjApi.vio model/ObjChecks.vio proofs/C04_conv.vio
 props/C04.vos props/C04.vok props/C04.required_vos: props/C04.v lib/Lib.vos lib/RLib.vos lib/Spec.vos gen/Compute.vos gen/Tables.vos model/ObjModel.vos gen/ObjNames.vos gen/ObjApi.vos model/ObjChecks.vos proofs/C04_conv.vos
+props/C05.vo props/C05.glob props/C05.v.beautified props/C05.required_vo: props/C05.v lib/Lib.vo lib/ULib.vo gen/Totality.vo model/ObjModel.vo gen/ObjNames.vo gen/ObjApi.vo gen/ObjApiBin.vo model/ObjChecks.vo model/ObjChecksBin.vo
+props/C05.vio: props/C05.v lib/Lib.vio lib/ULib.vio gen/Totality.vio model/ObjModel.vio gen/ObjNames.vio gen/ObjApi.vio gen/ObjApiBin.vio model/ObjChecks.vio model/ObjChecksBin.vio
+props/C05.vos props/C05.vok props/C05.required_vos: props/C05.v lib/Lib.vos lib/ULib.vos gen/Totality.vos model/ObjModel.vos gen/ObjNames.vos gen/ObjApi.vos gen/ObjApiBin.vos model/ObjChecks.vos model/ObjChecksBin.vos
 props/C09.vo props/C09.glob props/C09.v.beautified props/C09.required_vo: props/C09.v lib/Lib.vo lib/RLib.vo lib/Spec.vo gen/Compute.vo gen/Tables.vo proofs/C09_boost.vo proofs/C09_boost2.vo
 props/C09.vio: props/C09.v lib/Lib.vio lib/RLib.vio lib/Spec.vio gen/Compute.vio gen/Tables.vio proofs/C09_boost.vio proofs/C09_boost2.vio
 props/C09.vos props/C09.vok props/C09.required_vos: props/C09.v lib/Lib.vos lib/RLib.vos lib/Spec.vos gen/Compute.vos gen/Tables.vos proofs/C09_boost.vos proofs/C09_boost2.vos
